@@ -57,6 +57,9 @@ MENU_RECESSION = [
     # recessions that begin with a small residual rise (not monotone)
     ([6.75, 7.5, 5.5], [0, 1800, 9000]),                     # I 7,7,6
     ([4.25, 9.25, 8.75, 3.5], [0, 600, 4200, 15000]),        # J 5..9 up, 9..4
+    # same initial level as A, different shapes (ties in the sort key)
+    ([10.0, 9.25, 8.0], [0, 1800, 5400]),                    # K 8, 9
+    ([10.0, 7.5], [0, 7200]),                                # L 8, 9
 ]
 MENU_RISE = [
     ([2.0, 6.5], [0, 9.0]),        # 2..6
@@ -69,6 +72,8 @@ MENU_RISE = [
     ([11.5, 13.0], [0, 0.5]),      # 12
     ([7.25, 10.5], [0, 4.0]),      # 8..10 bridges the second and third
     ([24.75, 41.0], [0, 20.0]),    # 25..40 bridges to the long piece
+    ([2.0, 4.5], [0, 3.0]),        # same initial level as the first
+    ([2.0, 9.5], [0, 11.0]),       # same initial level, longer
 ]
 MENUS = {'recession': MENU_RECESSION, 'rise': MENU_RISE}
 SHIFTS = [1000.0, -7.5, 1.6e9]
@@ -81,19 +86,24 @@ def decoy():
 
 def BOUND(tier):
     return ('all multisets of up to 4 of 100 lattice paths for the group '
-            'finder; all multisets of 2..%d pieces from two menus of 10 pieces x all '
+            'finder; all multisets of 2..%d pieces from two menus of 12 pieces x all '
             'orders x 3k+2 shift vectors; all relabellings of the main group'
             % (4 if tier == 'quick' else 5))
 
 
-def multiset_space(menu, size, n_menu):
+def multiset_space(menu, size, n_menu, step=1.0):
     combos = list(itertools.combinations_with_replacement(
         range(n_menu), size))
 
     def decode(i):
-        return {'menu': menu, 'pieces': list(combos[i])}
+        case = {'menu': menu, 'pieces': list(combos[i])}
+        if step != 1.0:
+            case['step'] = step
+        return case
     return Space('get_series_time_offsets/%s menu (%d of its pieces)/%d '
-                 'pieces' % (menu, n_menu, size), len(combos), decode)
+                 'pieces%s' % (menu, n_menu, size,
+                               '' if step == 1.0 else '/grid step %g' % step),
+                 len(combos), decode)
 
 
 LATTICE = [0.5, 1.5, 2.5, 3.5, 4.5]
@@ -223,19 +233,24 @@ def spaces(tier):
     out = [components_space(k) for k in (2, 3, 4)]
     for size in ((2, 3, 4) if tier == 'quick' else (2, 3, 4, 5)):
         for menu in ('recession', 'rise'):
-            n_menu = 10 if (tier == 'thorough' or size < 4) else 8
+            n_menu = 12 if (tier == 'thorough' or size < 4) else 8
             out.append(multiset_space(menu, size, n_menu))
+    # the same pieces on other level grids, in the same process
+    for step in (0.5, 2.0):
+        for menu in ('recession', 'rise'):
+            out.append(multiset_space(menu, 2 if tier == 'quick' else 3, 12,
+                                      step=step))
     return out
 
 
-def levels_of(piece):
+def levels_of(piece, step=STEP):
     H, t = piece
-    return set(crossings.mean_crossings([float(x) for x in t], H, STEP))
+    return set(crossings.mean_crossings([float(x) for x in t], H, step))
 
 
-def groups_of(pieces):
+def groups_of(pieces, step=STEP):
     """Connected groups of piece positions sharing levels"""
-    lv = [levels_of(p) for p in pieces]
+    lv = [levels_of(p, step) for p in pieces]
     parent = list(range(len(pieces)))
 
     def find(a):
@@ -256,13 +271,13 @@ def groups_of(pieces):
     return out
 
 
-def call(series):
+def call(series, step=STEP):
     """Run the real code; returns ('ok', indices, offsets, mapping) or
     ('exc', site)"""
     arg = [(np.array(t, dtype='float64'), np.array(H, dtype='float64'))
            for (H, t) in series]
     try:
-        idx, off, mapping = fit_mod.get_series_time_offsets(arg, STEP)
+        idx, off, mapping = fit_mod.get_series_time_offsets(arg, step)
     except Exception as exc:  # pylint: disable=broad-except
         return ('exc', cs.exc_site(exc), repr(exc)[:120])
     return ('ok', [int(i) for i in idx], [float(o) for o in off],
@@ -323,10 +338,11 @@ def run_case(case):
     ids = case['pieces']
     pieces = [menu[i] for i in ids]
     k = len(pieces)
-    groups = groups_of(pieces)
+    step = float(case.get('step') or STEP)
+    groups = groups_of(pieces, step)
     multi = [g for g in groups if len(g[0]) >= 2]
     viol = []
-    base = call(pieces)
+    base = call(pieces, step)
     span = max(max(t) - min(t) for _, t in pieces)
     tol = 1e-9 * max(span, 1.0)
     nontrivial = False
@@ -394,7 +410,7 @@ def run_case(case):
                 continue
             series = [(pieces[p][0], [x + sv[p] for x in pieces[p][1]])
                       for p in perm]
-            res = call(series)
+            res = call(series, step)
             n_runs += 1
             if res[0] == 'exc':
                 viol.append(('transformed-run-fails',
@@ -415,7 +431,7 @@ def run_case(case):
         sub = [pieces[m] for m in members]
         arg = [(np.array(t, dtype='float64') - min(t),
                 np.array(H, dtype='float64')) for (H, t) in sub]
-        mapping = fit_mod.build_head_mapping(arg, STEP)
+        mapping = fit_mod.build_head_mapping(arg, step)
         ref = None
         for perm in itertools.permutations(range(len(sub))):
             relabelled = {h: [(perm[i] * 3 + 5, v) for i, v in seq]
